@@ -44,7 +44,7 @@ func (r *rng) intn(n int) int {
 	return int(r.next() % uint64(n))
 }
 func (r *rng) chance(num, den int) bool { return r.intn(den) < num }
-func pick[T any](r *rng, xs []T) T   { return xs[r.intn(len(xs))] }
+func pick[T any](r *rng, xs []T) T      { return xs[r.intn(len(xs))] }
 
 // ---------------------------------------------------------------- reference storage
 
